@@ -999,7 +999,7 @@ func gridLayout(context *layoutContext, box_ Box, bottomSpace pr.Float, skipStac
 	// 1.2 Process the items locked to a given row.
 	children := make([]Box, len(box.Children))
 	copy(children, box.Children)
-	sort.Slice(children, func(i, j int) bool { return children[i].Box().Style.GetOrder() < children[j].Box().Style.GetOrder() })
+	sort.SliceStable(children, func(i, j int) bool { return children[i].Box().Style.GetOrder() < children[j].Box().Style.GetOrder() })
 	for _, child := range children {
 		if _, has := childrenPositions[child]; has {
 			continue
